@@ -27,6 +27,9 @@ func (r Record) Clone() Record {
 	return Record{append([]byte{}, r.Underlay...), append([]byte{}, r.Overlay...), append([]byte{}, r.Signature...), r.NetworkID}
 }
 
+// WitnessKey is a fourth key, never used for the record under test.
+var WitnessKey = bytes.Repeat([]byte{0x22}, 32)
+
 var Keys = [][]byte{
 	bytes.Repeat([]byte{0x11}, 32),
 	{0x63, 0x4f, 0xb5, 0xa8, 0x72, 0x39, 0x6d, 0x96, 0x93, 0xe5, 0xc9, 0xf9, 0xd7, 0x23, 0x3c, 0xfa, 0x93, 0xf3, 0x95, 0xc0, 0x93, 0x37, 0x10, 0x17, 0xff, 0x44, 0xaa, 0x9a, 0xe6, 0x56, 0x4c, 0xdd},
@@ -130,16 +133,26 @@ type Op struct {
 	Alt       uint64
 }
 
-// Ops enumerates all operators for a genuine record made by key ki.
-func Ops(r Record, ki int) []Op {
+// Ops enumerates all operators for a genuine record made by key ki. With
+// perByte == false the per-byte mutations of the three fields are left out.
+func Ops(r Record, ki int, perByte bool) []Op {
 	ops := []Op{{Kind: OpNone}}
 	for p := range r.Underlay {
+		if !perByte {
+			break
+		}
 		ops = append(ops, Op{Kind: OpUnderlayByte, Pos: p, Val: 0x01}, Op{Kind: OpUnderlayByte, Pos: p, Val: 0x80})
 	}
 	for p := range r.Overlay {
+		if !perByte {
+			break
+		}
 		ops = append(ops, Op{Kind: OpOverlayByte, Pos: p, Val: 0x01}, Op{Kind: OpOverlayByte, Pos: p, Val: 0x80})
 	}
 	for p := range r.Signature {
+		if !perByte {
+			break
+		}
 		ops = append(ops, Op{Kind: OpSignatureByte, Pos: p, Val: 0x01}, Op{Kind: OpSignatureByte, Pos: p, Val: 0x80})
 	}
 	h := r.Signature[64]
